@@ -235,4 +235,30 @@ example : let v := views (scaleProps (1 : ℝ) 1 1 1 [1000, 900] [100000, 1000, 
       (·.1)).length = 9 := by
   intro v; rfl
 
+/-- **length units**: `conversion_factor(a, b)` between metre multiples is the ratio size(a)/size(b) of the unit sizes —
+    a length of `x` units `a` is `x·f` units `b` with `f · size(b) = size(a)` (metres to kilometres: 1/1000, never 1000) —
+    and converting back is the reciprocal.  With `dz_formula` (all four results of `calculate_scale_properties` carry the one
+    factor `conversion_factor('m', length_units)`) the scale height in the requested unit is `kT/(μ g)` expressed in it. -/
+theorem length_factor (a b : String) (f : ℝ) (h : lengthFactor a b = some f) :
+    ∃ sa sb : ℝ, metresPer a = some sa ∧ metresPer b = some sb ∧ 0 < sa ∧ 0 < sb ∧ f * sb = sa ∧
+      lengthFactor b a = some (1 / f) := by
+  unfold lengthFactor at h
+  cases ha : (metresPer a : Option ℝ) with
+  | none => simp [ha] at h
+  | some sa =>
+    cases hb : (metresPer b : Option ℝ) with
+    | none => simp [ha, hb] at h
+    | some sb =>
+      simp only [ha, hb, Option.some.injEq] at h
+      have hsa := metresPer_pos a sa ha
+      have hsb := metresPer_pos b sb hb
+      refine ⟨sa, sb, rfl, rfl, hsa, hsb, ?_, ?_⟩
+      · rw [← h]; field_simp
+      · unfold lengthFactor
+        simp only [ha, hb]
+        rw [← h]; congr 1; field_simp
+
+example : lengthFactor (α := ℝ) "m" "km" = some (1 / (10 * 10 * 10)) := by
+  simp [lengthFactor, metresPer]
+
 end Taurex.C11
